@@ -219,7 +219,13 @@ pub struct MemDesc {
 
 #[path = "../c20_maps.rs"]
 mod maps;
-use maps::{MAPS, MEMS};
+/// outer family + the gentl-style declarations of `mod inner`
+fn all_maps() -> Vec<&'static MapDesc> {
+    maps::MAPS.iter().chain(maps::inner::MAPS_INNER.iter()).collect()
+}
+fn all_mems() -> Vec<&'static MemDesc> {
+    maps::MEMS.iter().chain(maps::inner::MEMS_INNER.iter()).collect()
+}
 
 include!("../c20_body.rs");
 include!("../c20_main.rs");
